@@ -32,8 +32,9 @@ func init() {
 				Rule: "LIS/LNDS: every sequence over alphabet 4 x length <= 8, alphabet 3 x length <= 11 and alphabet 2 x length <= 13 (exhaustive), each under four comparators (natural -1/0/+1, reversed, a 'wide' comparator returning the difference a-b, and one returning MinInt/MaxInt); a structured family of two interleaved ascending runs with run lengths 1..70 and 2^k-1..2^k+1 up to 1024, plus random sequences up to 1500 (5000 thorough) with heavy duplication, and sequences of 32769..131072 elements (length checked against an O(n log n) patience reference); " +
 					"LCS/LCSFunc: every pair over alphabet 2 x length <= 7 and alphabet 3 x length <= 5 (exhaustive) plus random pairs up to 300 of very different lengths and pairs of 4100..11700 elements (length products past 2^24..2^27). " +
 					"Checks: returned elements identify strictly increasing positions of the input (for LCS: of one input, and their values form a subsequence of the other), strict / non-strict order under the comparator used, length == quadratic reference, inputs unmodified; 8 goroutines call LIS/LNDS/LCS concurrently on unshared inputs (plain and under -race), a comparison callback that itself calls LIS (re-entrancy), and LCS instantiated with interface-typed elements; interleaved with all of it, calls that are abandoned half-way (the comparison function panics after m calls and the caller recovers) so that every verified call also runs right after a failed one. " +
+					"Element types whose == is not reflexive (floats holding NaN, structs and arrays of them; +0 and -0): two unrelated slices, the same slice as both arguments, windows of one backing array; the result must be the one the int instantiation gives on codes that are equal exactly where the elements are ==. " +
 					"distinct = the input (enumerated without repetition; random by hash); non-trivial = the input has a repeated value (ties)",
-				Required:     []string{"lis_inputs", "lnds_inputs", "lcs_pairs", "wide_comparator_inputs", "reversed_comparator_inputs", "lcs_unequal_length_pairs", "structured_two_run_inputs", "concurrent_calls", "reentrant_calls", "interface_element_cases", "abandoned_calls", "very_large_inputs", "wraparound_schedules", "very_long_answer_inputs", "monotone_run_inputs"},
+				Required:     []string{"lis_inputs", "lnds_inputs", "lcs_pairs", "wide_comparator_inputs", "reversed_comparator_inputs", "lcs_unequal_length_pairs", "structured_two_run_inputs", "concurrent_calls", "reentrant_calls", "interface_element_cases", "non_reflexive_element_cases", "abandoned_calls", "very_large_inputs", "wraparound_schedules", "very_long_answer_inputs", "monotone_run_inputs"},
 				Exhaustive:   true,
 				Assumptions:  []string{"quadratic DP references for LIS/LNDS/LCS lengths"},
 				CoverPkgs:    []string{"github.com/creachadair/mds/slice"},
@@ -515,6 +516,70 @@ func c12anyElems(c *fw.Ctx) {
 	}
 }
 
+// c12floatElems: LCS on element types whose == is not reflexive (NaN), given
+// as unrelated slices, as the same slice twice and as windows of one array.
+func c12floatElems(c *fw.Ctx) {
+	r := c.Rng()
+	type cell struct{ F float64 }
+	for k := 0; k < 240; k++ {
+		p := nrPairOf(r, k)
+		want, _ := lcsLen(p.CA, p.CB)
+		data := map[string]any{"a": nrShow(p.A), "b": nrShow(p.B), "arguments": p.How}
+		c.Add("non_reflexive_element_cases", 1)
+		var n1, n2, n3 int
+		var got []float64
+		ok, pv, stack := fw.Try(func() {
+			got = slice.LCS(p.A, p.B)
+			n1 = len(got)
+			as, bs := make([]cell, len(p.A)), make([]cell, len(p.B))
+			for i, v := range p.A {
+				as[i] = cell{v}
+			}
+			for i, v := range p.B {
+				bs[i] = cell{v}
+			}
+			if k%4 == 1 {
+				bs = as
+			}
+			n2 = len(slice.LCS(as, bs))
+			aa, ba := make([][2]float64, len(p.A)), make([][2]float64, len(p.B))
+			for i, v := range p.A {
+				aa[i] = [2]float64{1, v}
+			}
+			for i, v := range p.B {
+				ba[i] = [2]float64{1, v}
+			}
+			if k%4 == 1 {
+				ba = aa
+			}
+			n3 = len(slice.LCS(aa, ba))
+		})
+		c.Step()
+		if !ok {
+			c.FailKind("panic", data, "LCS on float elements panicked: %v\n%s", pv, stack)
+			return
+		}
+		if n1 != want || n2 != want || n3 != want {
+			c.Fail(data, "LCS returned %d elements on []float64, %d on structs holding them, %d on arrays holding them; the longest common subsequence under == has %d (NaN equals nothing, not even itself)", n1, n2, n3, want)
+			return
+		}
+		// the result is a subsequence of both inputs under ==
+		for _, in := range [][]float64{p.A, p.B} {
+			j := 0
+			for _, v := range got {
+				for j < len(in) && in[j] != v {
+					j++
+				}
+				if j == len(in) {
+					c.Fail(data, "LCS result %v is not a subsequence of both inputs under ==", nrShow(got))
+					return
+				}
+				j++
+			}
+		}
+	}
+}
+
 func runC12(c *fw.Ctx) {
 	if c.Flavour == "race" {
 		c12concurrent(c, 1<<22)
@@ -523,6 +588,7 @@ func runC12(c *fw.Ctx) {
 	c12concurrent(c, 1<<22)
 	if c.Block == 0 && c.Begin(1<<23) {
 		c12anyElems(c)
+		c12floatElems(c)
 	}
 	idx := 0
 	type space struct{ a, maxLen int }
